@@ -197,7 +197,11 @@ Definition tx_step (delay : Z) (m : ms) (t : Z) (body : list Z) (rel : bool) (s 
     (* C03: a matching tx first seen now is delivered now *)
     let must_deliver := rel && negb (mem t (m_delivered m)) in
     let bad_missing := must_deliver && negb (has_ev es (fun e => (e_kind e =? 1) && (e_t e =? t))) in
-    ((if bad_new then 141 else if bad_old then 142 else if bad_missing then 143 else 0), m').
+    (* C05: a delivered, still unconfirmed tx that is seen again (it left the mempool at a restart)
+       and now conflicts with a held one is reported unsafe as well *)
+    let bad_self := mem t (m_live m) && negb (zlen cs =? 0) &&
+                    negb (has_ev es (fun e => (e_kind e =? 2) && (e_t e =? t) && e_unsafe e)) in
+    ((if bad_new then 141 else if bad_old then 142 else if bad_missing then 143 else if bad_self then 144 else 0), m').
 
 (* a block is processed successfully *)
 Definition block_step (m : ms) (b : Z) (txs : list btx) (es : list ev) : Z * ms :=
@@ -349,7 +353,7 @@ Definition flow_valid (delay : Z) (ops : list op) : bool :=
   && forallb (fun e => nodupb (snd (fst e))) (flat_map mentions ops)
   && forallb (fun o => match o with
                        | OAdvance dt => 0 <=? dt
-                       | OBlock b _ txs _ => pairwise_disjoint txs
+                       | OBlock b _ txs _ => (0 <? b) && pairwise_disjoint txs   (* 0 is genesis; -1 encodes "no proof" *)
                        | _ => true
                        end) ops
   && blocks_consistent (block_msgs ops)               (* a block id always comes with the same content *)
